@@ -348,4 +348,5 @@ def gen_sched(rng, prof):
     if rng.random() < prof.get("lines_p", 0.3):
         s["lines"] = True
         s["p_line"] = rng.choice([0.005, 0.02, 0.1])
+        s["stall_hot"] = rng.choice([0.0, 0.01, 0.03, 0.1])
     return s
